@@ -437,6 +437,9 @@ fn child_main(dir: &str) -> i32 {
             break;
         }
     }
+    // stdin closed (the parent is gone or done): leave at once. Dropping the worker could block for ever in
+    // Drop for Database, which joins background closures that wait for a command that will never come.
+    std::mem::forget(w);
     0
 }
 
